@@ -657,6 +657,96 @@ func ruleHandlerKeepsMaximum(c *Ctx) {
 		}
 	}
 	if n == 0 {
+		// the running maximum as a plain local: a φ one of whose operands is a current TSO
+		isCur := func(v ssa.Value) bool { cl, _ := callOf(v); return cl != nil && cur.Match(cl.Common()) }
+		for _, b := range h.Blocks {
+			for _, ins := range b.Instrs {
+				phi, ok := ins.(*ssa.Phi)
+				if !ok {
+					break
+				}
+				for i, e := range phi.Edges {
+					if i >= len(b.Preds) || !derivesFrom(e, isCur, 2) {
+						continue
+					}
+					if _, isPhi := e.(*ssa.Phi); isPhi {
+						continue
+					}
+					n++
+					val := e
+					isRunning := func(v ssa.Value) bool {
+						if v == ssa.Value(phi) {
+							return true
+						}
+						p2, ok := v.(*ssa.Phi)
+						if !ok {
+							return false
+						}
+						for _, x := range p2.Edges {
+							if x == ssa.Value(phi) {
+								return true
+							}
+						}
+						for _, x := range phi.Edges {
+							if x == v {
+								return true
+							}
+						}
+						return false
+					}
+					greater := &guardEv{name: "CompareTimestamp(current, running maximum) > 0", match: func(cond ssa.Value, pos bool) bool {
+						r, ok := relOf(cond, pos)
+						if !ok {
+							return false
+						}
+						cl, _ := callOf(r.X)
+						k, isC := constInt(r.Y)
+						if cl == nil || !isC || !cmpTS.Match(cl.Common()) || len(cl.Call.Args) != 2 {
+							return false
+						}
+						fwd := sameVal(cl.Call.Args[0], val) && isRunning(cl.Call.Args[1])
+						rev := isRunning(cl.Call.Args[0]) && sameVal(cl.Call.Args[1], val)
+						switch {
+						case fwd:
+							return (r.Op == token.GTR && k >= 0) || (r.Op == token.GEQ && k >= 1)
+						case rev:
+							return (r.Op == token.LSS && k <= 0) || (r.Op == token.LEQ && k <= -1)
+						}
+						return false
+					}}
+					none := guardRel("nothing collected yet", "==", isRunning, isNilConst)
+					pred := b.Preds[i]
+					last := pred.Instrs[len(pred.Instrs)-1]
+					c.need(rule, h, fmt.Sprintf("running maximum replaced #%d", n), func(x ssa.Instruction) bool { return x == last }, []Ev{greater, none}, anyOf,
+						"the running maximum is replaced only by a current TSO that compares greater than it (or when nothing was collected yet)")
+				}
+			}
+		}
+	}
+	if n == 0 {
 		c.Undec(rule, "running maximum in "+fnName(h), "a local that collects GetCurrentTSO() results", "", "")
 	}
+	// whatever the shape of the collection: the maximum the handler answers with comes from the allocators' current
+	// TSOs, and a dc-location is reported as synchronised only for an allocator this member was found to lead
+	pb := "github.com/pingcap/kvproto/pkg/pdpb"
+	maxF := P.Field(pb, "SyncMaxTSResponse", "MaxLocalTs")
+	k := 0
+	for _, st := range storesToField(h, maxF) {
+		k++
+		c.Check(derivesFrom(st.Val, func(v ssa.Value) bool { cl, _ := callOf(v); return cl != nil && cur.Match(cl.Common()) }, 8), rule,
+			fmt.Sprintf("MaxLocalTs answered #%d by %s", k, fnName(h)), "derives from the current TSOs of the local allocators this member leads", P.instrPos(st), "no value flows from GetCurrentTSO() to the answer")
+	}
+	if k == 0 {
+		c.Undec(rule, "MaxLocalTs in the answer of "+fnName(h), "found", P.pos(h.Pos()), "")
+	}
+	isLeader := F(P.Method("server/tso", "LocalTSOAllocator", "IsAllocatorLeader"))
+	getDC := F(P.Method("server/tso", "LocalTSOAllocator", "GetDCLocation"))
+	c.need(rule, h, "dc-location reported as synchronised", func(x ssa.Instruction) bool {
+		st, ok := x.(*ssa.Store)
+		if !ok {
+			return false
+		}
+		_, isIdx := st.Addr.(*ssa.IndexAddr)
+		return isIdx && valueIsCallTo(st.Val, getDC)
+	}, []Ev{guardCall("IsAllocatorLeader()", true, callMatcher(isLeader))}, all, "only a dc-location whose allocator this member leads at that moment is reported as synchronised")
 }
